@@ -515,6 +515,61 @@ func C14(tier Tier) int {
 			}
 		}
 	})
+	// long fields: every bytes field of the three messages at the lengths where a length prefix or a
+	// size assumption changes (127/128, 255/256, 16383/16384, 65535/65536, 100000, 2^21)
+	{
+		for _, n := range []int{127, 128, 255, 256, 16383, 16384, 65535, 65536, 100000, 1 << 21} {
+			blob := bytes.Repeat([]byte{0xa5}, n)
+			metasL := []*esdt.MetaData{{Nonce: 1, Name: blob}, {Nonce: 1, Creator: blob}, {Nonce: 1, Hash: blob}, {Nonce: 1, Attributes: blob}, {Nonce: 1, URIs: [][]byte{[]byte("u"), blob}}}
+			for fi, m := range metasL {
+				for _, wrap := range []bool{false, true} {
+					var enc []byte
+					var err error
+					var back *esdt.MetaData
+					if wrap {
+						t := &esdt.ESDigitalToken{Type: 1, Value: big.NewInt(1), TokenMetaData: m}
+						enc, err = t.Marshal()
+						t2 := &esdt.ESDigitalToken{}
+						if err == nil {
+							err = t2.Unmarshal(enc)
+						}
+						back = t2.TokenMetaData
+					} else {
+						enc, err = m.Marshal()
+						back = &esdt.MetaData{}
+						if err == nil {
+							err = back.Unmarshal(enc)
+						}
+					}
+					if err != nil || back == nil || metaEq(m, back) != "" {
+						ws[0].Fail(P, "roundtrip", fmt.Sprintf("long-field:meta-field-%d", fi), fmt.Sprintf("metadata with a %d-byte field (#%d, wrapped in a token: %v) does not survive the round trip: %v", n, fi, wrap, err), "case", fmt.Sprintf("long:%d:%d:%v", n, fi, wrap))
+					}
+					ws[0].Case(fmt.Sprintf("long-field:%d", n))
+				}
+			}
+			tk := &esdt.ESDigitalToken{Value: big.NewInt(1), Properties: blob, Reserved: blob}
+			if enc, err := tk.Marshal(); err != nil {
+				ws[0].Fail(P, "roundtrip", "long-field:token", fmt.Sprintf("token with %d-byte properties cannot be encoded: %v", n, err), "case", fmt.Sprintf("longtok:%d", n))
+			} else {
+				t2 := &esdt.ESDigitalToken{}
+				if err := t2.Unmarshal(enc); err != nil || tokenEq(tk, t2) != "" {
+					ws[0].Fail(P, "roundtrip", "long-field:token", fmt.Sprintf("token with %d-byte properties / reserved does not survive the round trip: %v", n, err), "case", fmt.Sprintf("longtok:%d", n))
+				}
+			}
+			rl := &esdt.ESDTRoles{Roles: [][]byte{[]byte("r"), blob}}
+			if enc, err := rl.Marshal(); err == nil {
+				r2 := &esdt.ESDTRoles{}
+				if err := r2.Unmarshal(enc); err != nil || !listEq(rl.Roles, r2.Roles) {
+					ws[0].Fail(P, "roundtrip", "long-field:roles", fmt.Sprintf("role list with a %d-byte entry does not survive the round trip: %v", n, err), "case", fmt.Sprintf("longroles:%d", n))
+				}
+			}
+			amt := new(big.Int).SetBytes(blob)
+			wire := refAmount(amt)
+			if backAmt, err := (&data.BigIntCaster{}).Unmarshal(wire); err != nil || backAmt == nil || backAmt.Cmp(amt) != 0 {
+				ws[0].Fail(P, "roundtrip", "long-field:amount", fmt.Sprintf("an amount of %d bytes does not survive the round trip: %v", n, err), "case", fmt.Sprintf("longamt:%d", n))
+			}
+		}
+	}
 	// hostile varints: every tag (field 1..9 x wire type 0..5) followed by every extreme varint
 	// (as a value or as a length), bare, followed by a few bytes, and nested inside the token's
 	// metadata field
